@@ -1,0 +1,51 @@
+// Copyright 2025 CloudWeGo Authors
+//
+// Licensed under the Apache License, Version 2.0 (the "License");
+// you may not use this file except in compliance with the License.
+// You may obtain a copy of the License at
+//
+//     http://www.apache.org/licenses/LICENSE-2.0
+//
+// Unless required by applicable law or agreed to in writing, software
+// distributed under the License is distributed on an "AS IS" BASIS,
+// WITHOUT WARRANTIES OR CONDITIONS OF ANY KIND, either express or implied.
+// See the License for the specific language governing permissions and
+// limitations under the License.
+
+//go:build verif
+// +build verif
+
+package mux
+
+import "unsafe"
+
+// Verification schedule points (build tag `verif` only); see the netpoll package's verif_on.go.
+var verifHook func(pt int32, obj unsafe.Pointer, a, b int64)
+
+func vp(pt int32, obj unsafe.Pointer, a, b int64) {
+	if h := verifHook; h != nil {
+		h(pt, obj, a, b)
+	}
+}
+
+const (
+	vpqAddState     = 1
+	vpqAddIdx       = 2
+	vpqShardLock    = 3
+	vpqShardUnlock  = 4
+	vpqListLock     = 5
+	vpqTriggerAdd   = 6
+	vpqRunNumAdd    = 7
+	vpqTriggerLoad  = 8
+	vpqRingRead     = 9
+	vpqTriggerSub   = 10
+	vpqFlush        = 11
+	vpqRunNumStore  = 12
+	vpqExitCheck    = 13
+	vpqStateCAS     = 14
+	vpqCloseCAS     = 15
+	vpqCloseLoop    = 16
+	vpqCloseStore   = 17
+	vpqCloseSpin    = 18
+	vpqShardLockSpn = 19
+)
